@@ -101,6 +101,6 @@ def run(chk):
                        "distinct_nontrivial = random uploads (distinct seeds)")
     chk.assumptions += ["for files above 4 KiB the bit-for-bit comparison of a block is done by the harness against the bytes it wrote to disk",
                         "the path -> id table (21 entries) is restated in spec/sequence/WriteFile.tla",
-                        "tool runs: strace reports the tool's writes faithfully; the payload files of the tool runs are <= 30 bytes (block logic is "
+                        "tool runs: strace reports the tool's writes faithfully; the payload files of the tool runs are <= 300 bytes (block logic is "
                         "covered by the in-process uploads)"]
     shutil.rmtree(wd, ignore_errors=True)
